@@ -5,7 +5,7 @@ cd /verif
 for d in seeded/*/; do
   id=$(basename "$d")
   for prop in $(python3 -c "import json,sys; print(' '.join(json.load(open('$d/meta.json')).get('caught_by',[])))"); do
-    if ! git -C /repo apply --check "$d/patch.diff" 2>/dev/null; then echo "$id $prop PATCH-DOES-NOT-APPLY"; continue; fi
+    if ! git -C /repo apply --check "/verif/$d/patch.diff" 2>/dev/null; then echo "$id $prop PATCH-DOES-NOT-APPLY"; continue; fi
     out=$(tools/try_mutant.sh "$d/patch.diff" "$prop" quick 2>&1)
     if echo "$out" | grep -q "^VIOLATION property=$prop"; then echo "$id $prop CAUGHT"; else echo "$id $prop MISSED: $(echo "$out" | tail -2 | tr '\n' ' ' | cut -c1-200)"; fi
   done
